@@ -73,6 +73,21 @@ impl RtpsWriterProxy {
     }
 
     pub fn push_data_frag(&mut self, submessage: DataFragSubmessage) {
+        // Fragments that cannot belong to any sample (RTPS 8.3.7.3.3) are dropped here: a zero fragment or sample size,
+        // no fragments, or fragment numbers outside of the sample
+        let fragment_size = submessage.fragment_size() as u32;
+        let first = submessage.fragment_starting_num();
+        let count = submessage.fragments_in_submessage() as u32;
+        if fragment_size == 0
+            || submessage.data_size() == 0
+            || count == 0
+            || first == 0
+            || first
+                .checked_add(count - 1)
+                .is_none_or(|last| last > submessage.data_size().div_ceil(fragment_size))
+        {
+            return;
+        }
         if !self.frag_buffer.contains(&submessage) {
             self.frag_buffer.push(submessage);
         }
@@ -287,38 +302,41 @@ impl RtpsWriterProxy {
 
             let nack_frag_count = self.nack_frag_count.wrapping_add(1);
             let mut nack_frag_included = false;
-            let rtps_message = if let Some(missing_change_fragments_seq_num) = self
+            let nack_frag_submessage = self
                 .missing_changes()
                 .take(256)
                 .find(|s| self.frag_buffer.iter().any(|x| &x.writer_sn() == s))
-            {
-                let frag = self
-                    .frag_buffer
-                    .iter()
-                    .find(|x| x.writer_sn() == missing_change_fragments_seq_num)
-                    .expect("Must exist");
-                let total_fragments_expected =
-                    frag.data_size().div_ceil(frag.fragment_size() as u32);
-                let mut missing_fragments_iter = (1..=total_fragments_expected)
-                    .filter(|frag_num| {
-                        !self.frag_buffer.iter().any(|f| {
-                            f.writer_sn() == missing_change_fragments_seq_num
-                                && &f.fragment_starting_num() == frag_num
+                .and_then(|missing_change_fragments_seq_num| {
+                    let frag = self
+                        .frag_buffer
+                        .iter()
+                        .find(|x| x.writer_sn() == missing_change_fragments_seq_num)?;
+                    let total_fragments_expected = total_fragments_expected(frag);
+                    let mut missing_fragments_iter = (1..=total_fragments_expected)
+                        .filter(|frag_num| {
+                            !self.frag_buffer.iter().any(|f| {
+                                f.writer_sn() == missing_change_fragments_seq_num
+                                    && &f.fragment_starting_num() == frag_num
+                            })
                         })
-                    })
-                    .peekable();
+                        .peekable();
 
-                let base = *missing_fragments_iter
-                    .peek()
-                    .expect("At least a fragment must be missing");
-                let fragment_number_state = FragmentNumberSet::new(base, missing_fragments_iter);
-                let nack_frag_submessage = NackFragSubmessage::new(
-                    reader_guid.entity_id(),
-                    self.remote_writer_guid().entity_id(),
-                    missing_change_fragments_seq_num,
-                    fragment_number_state,
-                    nack_frag_count,
-                );
+                    // Nothing to ask for when no fragment is missing. A fragment number set holds 256 numbers
+                    // from its base, the rest of a large sample is requested with the following messages
+                    let base = *missing_fragments_iter.peek()?;
+                    let fragment_number_state = FragmentNumberSet::new(
+                        base,
+                        missing_fragments_iter.take_while(|frag_num| frag_num - base < 256),
+                    );
+                    Some(NackFragSubmessage::new(
+                        reader_guid.entity_id(),
+                        self.remote_writer_guid().entity_id(),
+                        missing_change_fragments_seq_num,
+                        fragment_number_state,
+                        nack_frag_count,
+                    ))
+                });
+            let rtps_message = if let Some(nack_frag_submessage) = nack_frag_submessage {
                 nack_frag_included = true;
 
                 RtpsMessageWrite::from_submessages(
